@@ -112,7 +112,13 @@ func ParseTime(v string) (Time, error) {
 		return Time{}, err
 	}
 	// normalise to UTC: the store keeps timestamps without time zone, an offset left in the text would be dropped there
-	return Time{
+	ret := Time{
 		Time: t.UTC().Round(DatePrecision),
-	}, nil
+	}
+	// the text form has four digits for the year: an offset or the rounding can carry an accepted text across that limit,
+	// and the instant would be written as text that cannot be read back
+	if year := ret.Year(); year < 0 || year > 9999 {
+		return Time{}, errors.Errorf("date out of range: %s", v)
+	}
+	return ret, nil
 }
